@@ -15,14 +15,33 @@ let rt_parse_evs (s : string) : rtr_ev list * (int, unit) Hashtbl.t * (int, unit
       | 'W' -> let i = String.index e ':' in RtrWriteS (nat_of_int (num e 1 (i - 1)), bytes_of_hex (String.sub e (i + 1) (n - i - 1)))
       | 'X' -> let c = num e 1 (n - 1) in Hashtbl.replace sclosed c (); RtrCloseS (nat_of_int c)
       | 'k' -> RtrConnector (e = "k1")
+      | 'i' -> RtrInband ((if e.[1] = '0' then RdIn else RdOut), bytes_of_hex (String.sub e 3 (n - 3)))
+      | 'h' -> if e.[1] = 'A' then RtrHsRead (e.[2] = '1', e.[3] = '1', e.[4] = '1') else RtrHsRead (e.[2] = '1', false, false)
       | 'r' -> RtrReset
       | _ -> failwith "event") (split_on ',' s) in
   (evs, cclosed, sclosed)
 
+(* the lines the relay writes itself are compared as tokens: "#ACT:...\n" -> "#ACT\n" (also CFG, FAIL, fail), as c17rCanon does *)
+let rt_canon (l : n list) : n list =
+  let a = Array.of_list (List.map int_of_n l) in
+  let len = Array.length a in
+  let out = Buffer.create len in
+  let starts i w = let k = String.length w in i + k <= len && (let ok = ref true in String.iteri (fun j c -> if a.(i + j) <> Char.code c then ok := false) w; !ok) in
+  let rec nl i = if i >= len then -1 else if a.(i) = 10 then i else nl (i + 1) in
+  let i = ref 0 in
+  while !i < len do
+    let w = List.find_opt (fun w -> starts !i w) ["#ACT:"; "#CFG:"; "#FAIL:"; "#fail:"] in
+    (match w with
+     | Some w when nl !i >= 0 ->
+       Buffer.add_string out (String.sub w 0 (String.length w - 1)); Buffer.add_char out '\n'; i := nl !i + 1
+     | _ -> Buffer.add_char out (Char.chr a.(!i)); incr i)
+  done;
+  List.init (Buffer.length out) (fun j -> byte_tab.(Char.code (Buffer.nth out j)))
+
 (* X refused, P closed by the harness itself, R<hex>[C] answered [and closed by the relay], C closed unanswered, O open and silent *)
 let rt_obs_end self_closed (e : rt_end) =
   if self_closed then "P"   (* what arrived on an end the harness closed itself is not compared, see c17_relay.go *)
-  else if e.e_tx <> [] then "R" ^ hex_of_bytes e.e_tx ^ (if e.e_closed then "C" else "")
+  else if e.e_tx <> [] then "R" ^ hex_of_bytes (rt_canon e.e_tx) ^ (if e.e_closed then "C" else "")
   else if e.e_closed then "C" else "O"
 
 let () =
@@ -38,6 +57,19 @@ let () =
           match p.p_srv with None -> "-" | Some e -> rt_obs_end (Hashtbl.mem scl i) e) s.r_pairs in
       String.concat "," cobs ^ "|s=" ^ String.concat "," sobs
       ^ "|a=" ^ (match s.r_trelay with Some c -> string_of_int (int_of_nat c) | None -> "-")
+    | _ -> "?args");
+  register "rtunnel_hs" (function [u; sp; rp; evs] ->
+      let (evs, cc, scl) = rt_parse_evs evs in
+      let s = rtr_replay (bytes_of_hex u) (z_of_string sp) (z_of_string rp) evs in
+      let cobs = List.mapi (fun i (p : rt_pair) ->
+          match p.p_pc with RtRefused -> "X" | _ -> rt_obs_end (Hashtbl.mem cc i) p.p_cli) s.r_pairs in
+      let sobs = List.mapi (fun i (p : rt_pair) ->
+          match p.p_srv with None -> "-" | Some e -> rt_obs_end (Hashtbl.mem scl i) e) s.r_pairs in
+      let (cobs, sobs) = if cobs = [] then (["-"], ["-"]) else (cobs, sobs) in
+      let stream (l : rt_out list) = hex_of_bytes (rt_canon (List.concat (List.map (fun ((_, bs), _) -> bs) l))) in
+      String.concat "," cobs ^ "|s=" ^ String.concat "," sobs
+      ^ "|a=" ^ (match s.r_trelay with Some c -> string_of_int (int_of_nat c) | None -> "-")
+      ^ "|in=" ^ stream s.r_x.x_outin ^ "|out=" ^ stream s.r_x.x_outout
     | _ -> "?args");
   register "rtunnel_e2e" (function [u; sp; rp; evs] ->
       let (evs, _, _) = rt_parse_evs evs in
